@@ -107,8 +107,10 @@ def result_shape(op, py_stat):
     Known from the operation itself except for arithmetic, where the implementation chooses the format
     (taken from the Python level result type; the oracle only constrains the represented number)."""
     t = op[0]
-    if t in ("eq", "eqc"):
+    if t in ("eq", "eqc") or (t == "arithc" and op[1] == "eq"):
         return ("bool",)
+    if t == "resize_s":
+        return ("fixed", op[2], op[5][0], op[5][1])
     if t == "resize":
         return ("fixed", op[1], op[3][0], op[3][1])
     if t == "ctor_f":
@@ -527,8 +529,16 @@ def work(task):
     import time
     cpu0 = time.process_time()
     full = task[4]
+    skip_rej = False
     if task[0] == "pair":
         ops = g.pair_ops(task[1], task[2], task[3])
+    elif task[0] == "const":
+        # ("const", kind, A, B, full, sides): binary operators with a compile-time constant on one side
+        ops = [op for op in g.const_ops(task[1], task[2], task[3]) if op[5] in task[5]]
+    elif task[0] == "shape":
+        # ("shape", kind, A, B, full, do_hw, (), targets, hw targets): resize written in other call shapes, second object xb
+        ops = [op for T in task[7] for op in g.shape_ops(task[1], task[2], task[3], T)]
+        skip_rej = True  # what the plain resize rejects (listed findings) is not re-attempted per shape
     else:
         ops = g.single_ops(task[1], task[2], task[3])
     out = []
@@ -543,8 +553,13 @@ def work(task):
         # the default-argument form of resize is exercised at the Python level only (quick tier)
         if not full:
             batch = [op for op in batch if not (op[0] == "resize" and op[4] is None)]
+        if task[0] == "shape":
+            batch = [op for op in batch if op[5] in task[8]]  # compiled for the smaller target set only
+            if not batch:
+                continue
         shapes = [result_shape(op, py[op]) for op in batch]
-        stats, inf = run_hw(batch, shapes, [py[op].exc == py[op].evals for op in batch], try_rejected=full)
+        stats, inf = run_hw(batch, shapes, [py[op].exc == py[op].evals for op in batch], try_rejected=full,
+                            skip_rejected=skip_rej)
         for k in inf:
             info[k] += inf[k]
         out.extend(st.export() for st in stats)
@@ -556,6 +571,9 @@ def work(task):
         for k in inf:
             info[k] += inf[k]
         out.extend(st.export() for st in stats)
+    for d in out:
+        if d["op"][0] == "resize_s":
+            d["level"] = g.shape_level(d["level"], d["op"])  # call shape + format of the second object
     info["cpu_ms"] = int((time.process_time() - cpu0) * 1000)
     return {"task": task, "stats": out, "info": info}
 
@@ -581,16 +599,17 @@ def bounds(run: Run):
     if dev:
         lo, hi, mw = (int(x) for x in dev.split(","))
         run.capped = True
-        return dict(lo=lo, hi=hi, maxw=mw, maxn=mw, hw_lo=lo, hw_hi=hi, hw_maxw=mw, hw_extra_mod=0, seq=SEQ_QUICK, src_fmts=SRC_QUICK)
+        return dict(lo=lo, hi=hi, maxw=mw, maxn=mw, hw_lo=lo, hw_hi=hi, hw_maxw=mw, hw_extra_mod=0, seq=SEQ_QUICK, src_fmts=SRC_QUICK, shape_fmts=SRC_QUICK, shape_hw_fmts=SHAPE_HW_QUICK, const_fmts=SRC_QUICK)
     if run.thorough:
-        return dict(lo=-4, hi=4, maxw=6, maxn=6, hw_lo=-4, hw_hi=4, hw_maxw=6, hw_extra_mod=0, seq=SEQ_THOROUGH, src_fmts=SRC_THOROUGH)
-    return dict(lo=-3, hi=3, maxw=5, maxn=5, hw_lo=-2, hw_hi=2, hw_maxw=5, hw_extra_mod=12, seq=SEQ_QUICK, src_fmts=SRC_QUICK)
+        return dict(lo=-4, hi=4, maxw=6, maxn=6, hw_lo=-4, hw_hi=4, hw_maxw=6, hw_extra_mod=0, seq=SEQ_THOROUGH, src_fmts=SRC_THOROUGH, shape_fmts=tuple(g.formats(-1, 1, 3)), shape_hw_fmts=SRC_QUICK, const_fmts=None)
+    return dict(lo=-3, hi=3, maxw=5, maxn=5, hw_lo=-2, hw_hi=2, hw_maxw=5, hw_extra_mod=12, seq=SEQ_QUICK, src_fmts=SRC_QUICK, shape_fmts=SRC_QUICK, shape_hw_fmts=SHAPE_HW_QUICK, const_fmts=SRC_QUICK)
 
 
 # operand sources (hw level): every ordered pair of these formats x every source of g.SOURCES
 SRC_QUICK = ((1, -1), (0, 0), (1, 0), (0, -1))
 SRC_SOURCES_QUICK = g.SOURCES[1:]
 SRC_THOROUGH = tuple(g.formats(-2, 2, 4))
+SHAPE_HW_QUICK = ((1, -1), (0, 0), (0, -1))
 
 # operation sequences: (level, qualifier, format, depth of the per-take alphabets, depth of the mixed alphabet)
 SEQ_QUICK = (
@@ -689,6 +708,24 @@ def main(run: Run):
                     extra += do_hw
                 srcs = (g.SOURCES[1:] if run.thorough else SRC_SOURCES_QUICK) if (A in bd["src_fmts"] and B in bd["src_fmts"]) else ()
                 tasks.append(("pair", kind, A, B, run.thorough, do_hw or bool(srcs), srcs))
+    # compile-time constant operands: the run-time operand takes every format of the complete hw bound, the
+    # constant every format of const_fmts (thorough: also the whole hw bound), on the left and on the right
+    cf = set(bd["const_fmts"]) if bd["const_fmts"] is not None else set(hw_fmts)
+    n_const = 0
+    for kind in g.KINDS:
+        for A in sorted(hw_fmts):
+            for B in sorted(hw_fmts):
+                sides = ("L" if A in cf else "") + ("R" if B in cf else "")
+                if sides:
+                    n_const += len(sides)
+                    tasks.append(("const", kind, A, B, run.thorough, sides))
+    run.count("hw_constant_operand_format_pairs", n_const)
+    # resize call shapes: (A, B) formats of the two objects, every target of the same set
+    for kind in g.KINDS:
+        for A in bd["shape_fmts"]:
+            for B in bd["shape_fmts"]:
+                hw = A in bd["shape_hw_fmts"] and B in bd["shape_hw_fmts"]
+                tasks.append(("shape", kind, A, B, run.thorough, hw, (), tuple(bd["shape_fmts"]), tuple(bd["shape_hw_fmts"])))
     run.count("hw_pairs_complete_bound", 2 * len(hw_fmts) ** 2)
     run.count("hw_operand_source_pairs", 2 * len(bd["src_fmts"]) ** 2)
     run.count("hw_pairs_seed_selected_extra", extra)
@@ -703,7 +740,7 @@ def main(run: Run):
     sampled = set()
     known_instances = {}
     # operation types that have listed findings (their non-failing classes are matched too, see below)
-    tokens = {"resize": ("/resize/",), "arith": ("/add/", "/sub/", "/mul/"), "eq": ("/eq/",), "ctor_f": ("/ctor/",),
+    tokens = {"resize": ("/resize/",), "resize_s": ("/resize/",), "arith": ("/add/", "/sub/", "/mul/"), "eq": ("/eq/",), "ctor_f": ("/ctor/",),
               "ctor_v": ("/ctor/",), "ctor_c": ("/ctor/",), "eqc": ("/eqc/",), "seq": ("/seq/",)}
     known_op_types = {t for t, toks in tokens.items() if any(tok in k.get("key", "") for k in run.known for tok in toks)}
     warm_up()
@@ -719,7 +756,8 @@ def main(run: Run):
             lvl = s["level"]
             if only and op[0] not in only and lvl not in only:
                 continue
-            fam = f"{lvl}_{op[0]}"
+            lvl_base = lvl.split("@")[0]
+            fam = f"{lvl_base}_{op[0]}"
             run.count("operations")
             run.count(f"ops_{fam}")
             if s["note"]:
@@ -727,7 +765,7 @@ def main(run: Run):
                 continue
             run.count("evaluations", s["evals"])
             run.count(f"evals_{fam}", s["evals"])
-            run.count(f"evals_{lvl}", s["evals"])
+            run.count(f"evals_{lvl_base}", s["evals"])
             run.count("evaluations_rejected", s["exc"])
             if s["distinct"] >= 2:
                 run.count("ops_with_distinct_outcomes")
@@ -775,7 +813,7 @@ def main(run: Run):
     rej = run.counters.get("evaluations_rejected", 0)
     if not only:
         for lvl in ("py", "hw"):
-            for fam in ("arith", "resize", "eq", "ctor_f", "ctor_v", "ctor_c", "eqc", "seq"):
+            for fam in ("arith", "resize", "eq", "ctor_f", "ctor_v", "ctor_c", "eqc", "seq", "arithc", "resize_s"):
                 if run.counters.get(f"evals_{lvl}_{fam}", 0) == 0:
                     run.tool_error(f"vacuous: no {lvl} level evaluation of {fam}")
         if ev == 0 or (ev - rej) * 2 < ev:
@@ -795,6 +833,10 @@ def main(run: Run):
               f"format pair inside {bd['hw_lo']}..{bd['hw_hi']}, width<={bd['hw_maxw']}"
               + (f" plus a seed-selected 1/{bd['hw_extra_mod']} of the remaining pairs" if bd["hw_extra_mod"] else "")
               + f"; operand sources {g.SOURCES[1:] if run.thorough else SRC_SOURCES_QUICK} for every ordered pair of the formats {bd['src_fmts']}"
+              + f"; + - * == with a compile-time constant (min, max, -1 LSB / +1 LSB) on the left resp. right: run-time operand of "
+              f"every hw format, constant formats {bd['const_fmts'] or 'all hw formats'}; resize call shapes {g.SHAPES} (helper of xa "
+              f"held while xb.resize is accessed, resize of xb inside the argument list) for all (xa, xb, target) formats of "
+              f"{bd['shape_fmts']} x 4 styles at the Python level, compiled for {bd['shape_hw_fmts']}"
               + "; operation sequences (value-returning operations on a std.Variable/std.Signal that is re-assigned before "
               "the results are used): all well-typed sequences up to the listed depth over {r=T(v), v:=b, v:=r, s=r+v, e=(r==v)} "
               "per take operation T and over the mixed alphabet, all inputs: " + repr(bd["seq"])),
